@@ -8,6 +8,7 @@ from props.c14 import F32, F64, int_to_float, gen_float, gen_int
 
 PROP = 'C19'
 BIN = 'c19'
+DENSE = {'quick': {8: 16, 16: 16, 32: 16, 64: 16}, 'thorough': {8: 64, 16: 64, 32: 64, 64: 64}}   # bounded by the build time of this driver
 SIG = {'fp': 'd', 'ff': 'dd', 'tp': 'x'}
 encode = default_encode(SIG)
 decode = default_decode(SIG)
